@@ -205,7 +205,7 @@ def _render_control(case, texts):
   if c == 'label':
     ctl = controls.Label('text', tooltip='tip', link=t[2], id=t[0], css_classes=[t[1]])
   elif c == 'badge':
-    ctl = controls.Badge('text', tooltip='tip', id=t[0], styles={'color': t[1]})
+    ctl = controls.Badge('text', tooltip='tip', id=t[0], styles={'color': t[1], t[2]: 'red'})    # value and property name
   elif c == 'labelgroup':
     ctl = controls.LabelGroup([controls.Label('l%d' % i, link=x) for i, x in enumerate(t[:n + 1])], name='group', id=t[1])
   elif c == 'tooltip':
@@ -214,7 +214,8 @@ def _render_control(case, texts):
     ctl = controls.TabControl([controls.Tab('tab', pg.Dict({t[(i + 1) % len(t)]: t[(i + 2) % len(t)]}), name=t[i % len(t)])
                                for i in range(n)], tab_position=case.get('pos', 'top'))
   elif c == 'progress':
-    ctl = controls.ProgressBar([controls.SubProgress(name=t[i % len(t)], value=i) for i in range(n)], total=5)
+    ctl = controls.ProgressBar([controls.SubProgress(name=t[i % len(t)], value=i, styles={t[(i + 1) % len(t)]: 1})
+                                for i in range(n)], total=5)
   else:
     raise core.InvalidCase(case)
   before = pg.format(ctl, compact=True)
